@@ -4,6 +4,7 @@ package main
 
 import (
 	"fmt"
+	"go/constant"
 	"go/token"
 	"go/types"
 	"strconv"
@@ -312,8 +313,24 @@ func (v *FnVC) binop(x *ssa.BinOp) {
 	case token.XOR:
 		s = fmt.Sprintf("(bxor %s %s)", a.S, b.S)
 	case token.SHL:
+		if c, ok := x.Y.(*ssa.Const); ok && c.Value != nil {
+			if n, ok2 := constant.Int64Val(c.Value); ok2 && n >= 0 && n < 62 {
+				s = fmt.Sprintf("(* %s %d)", a.S, int64(1)<<uint(n))
+				if m := modulus(x.Type()); m != "" {
+					s = fmt.Sprintf("(mod %s %s)", s, m)
+				}
+				break
+			}
+		}
 		s = fmt.Sprintf("(bshl %s %s)", a.S, b.S)
 	case token.SHR:
+		if c, ok := x.Y.(*ssa.Const); ok && c.Value != nil {
+			if n, ok2 := constant.Int64Val(c.Value); ok2 && n >= 0 && n < 62 {
+				// arithmetic shift = floor division by a power of two
+				s = fmt.Sprintf("(div %s %d)", a.S, int64(1)<<uint(n))
+				break
+			}
+		}
 		s = fmt.Sprintf("(bshr %s %s)", a.S, b.S)
 	case token.AND_NOT:
 		s = fmt.Sprintf("(band %s (bxor %s (- 1)))", a.S, b.S)
